@@ -37,6 +37,8 @@ NOTES = {
  "C19-2": ("date_time.c ISO 8601 basic long format uses %G (ISO week-based year)", "instants on Dec 29-31 / Jan 1-3 where the ISO week year differs from the calendar year (0.47% of days)"),
  "C20-1": ("posix/thread.c aws_thread_launch: managed count incremented at the top, roll-back after the cpu-pinning retry", "managed thread with a cpu_id pthread_create refuses (retry path): one thread counted twice, join-all never reaches zero"),
  "C20-2": ("posix/thread.c aws_thread_launch: managed count incremented only after pthread_create returns", "managed parent launches a managed child while another thread is in join-all; child finishes and is joined before the parent's increment: join-all returns while the parent still runs"),
+ "C03-1": ("allocator_sba.c s_sba_free_to_bin: empty-page release only when the class has a working page (page_cursor)", "a page empties while its class has carved an exact multiple of its per-page capacity (no partially carved page): the empty page is retained, more than one page per class stays reserved"),
+ "C03-2": ("allocator_sba.c s_sba_alloc_from_bin: room check `>=` became `>`", "32-byte class only (usable page space is an exact multiple of the chunk): at the 127th live block the page is neither retired nor reused; bytes_active/bytes_reserved under-report"),
  "C04-1": ("libcbor streaming.c claim_bytes: bounds test rewritten additively (wraps)", "definite-length byte/text string whose 8-byte length is >= 2^64-9 (5B FF..FF): accepted, view of ~2^64 bytes outside the input"),
  "C04-2": ("xml_parser.c s_advance_to_closing_tag: the byte after a found \"<name\" is read before checking it precedes the closing tag", "node skipped / read as body whose closing tag is present and the document ends exactly with \"<name\" of a later same-name element: one-byte read past the input"),
  "C14-1": ("logging.c no-alloc logger: the 8 KiB line buffer made static (shared by all threads; formatting is outside the lock)", "two threads inside the no-alloc logger's log() at once: lines torn, duplicated or lost"),
